@@ -89,32 +89,32 @@ structure Relation where
   lhs : CExpr
   rhs : CExpr
 
-private def r (s : String) : CExpr := .ref s
-private def n (q : Rat) : CExpr := .lit q
-private def sq (a : CExpr) : CExpr := .pow a 2
-private def hbarE : CExpr := .div (r "h") (.mul (n 2) .pi)
+def cref (s : String) : CExpr := .ref s
+def clit (q : Rat) : CExpr := .lit q
+def csq (a : CExpr) : CExpr := .pow a 2
+def hbarE : CExpr := .div (cref "h") (.mul (clit 2) .pi)
 
 /-- relations the source is expected to satisfy *identically* in the measured base constants
     (checked on normal forms of the regenerated definitions) -/
 def relations : List Relation := [
-  ⟨"hbar", r "hbar", hbarE⟩,
-  ⟨"eps0_mu0_c2", .mul (.mul (r "eps_0") (r "mu_0")) (sq (r "c")), n 1⟩,
-  ⟨"mu_0", r "mu_0", .mul (.mul (n 4) .pi) (n (1 / 10000000))⟩,
-  ⟨"stefan_boltzmann", r "σ",
-    .div (.mul (.mul (n 2) (.pow .pi 5)) (.pow (r "kb") 4)) (.mul (.mul (n 15) (sq (r "c"))) (.pow (r "h") 3))⟩,
-  ⟨"radiation_constant", r "a", .div (.mul (n 4) (r "σ")) (r "c")⟩,
-  ⟨"rydberg", r "R_inf",
-    .div (.mul (r "me") (.pow (r "qp") 4))
-         (.mul (.mul (.mul (n 8) (sq (r "eps_0"))) (.pow (r "h") 3)) (r "c"))⟩,
-  ⟨"planck_mass", r "m_pl", .sqrt (.div (.mul (r "hbar") (r "c")) (r "G"))⟩,
-  ⟨"planck_length", r "l_pl", .sqrt (.div (.mul (r "hbar") (r "G")) (.pow (r "c") 3))⟩,
-  ⟨"planck_time", r "t_pl", .sqrt (.div (.mul (r "hbar") (r "G")) (.pow (r "c") 5))⟩,
-  ⟨"planck_energy", r "E_pl", .sqrt (.div (.mul (r "hbar") (.pow (r "c") 5)) (r "G"))⟩,
-  ⟨"planck_temperature", r "T_pl", .div (.sqrt (.div (.mul (r "hbar") (.pow (r "c") 5)) (r "G"))) (r "kb")⟩,
-  ⟨"planck_charge", r "q_pl", .sqrt (.mul (.mul (.mul (.mul (n 4) .pi) (r "eps_0")) (r "hbar")) (r "c"))⟩,
-  ⟨"electron_charge", r "qe", .neg (r "qp")⟩,
+  ⟨"hbar", cref "hbar", hbarE⟩,
+  ⟨"eps0_mu0_c2", .mul (.mul (cref "eps_0") (cref "mu_0")) (csq (cref "c")), clit 1⟩,
+  ⟨"mu_0", cref "mu_0", .mul (.mul (clit 4) .pi) (clit (1 / 10000000))⟩,
+  ⟨"stefan_boltzmann", cref "σ",
+    .div (.mul (.mul (clit 2) (.pow .pi 5)) (.pow (cref "kb") 4)) (.mul (.mul (clit 15) (csq (cref "c"))) (.pow (cref "h") 3))⟩,
+  ⟨"radiation_constant", cref "a", .div (.mul (clit 4) (cref "σ")) (cref "c")⟩,
+  ⟨"rydberg", cref "R_inf",
+    .div (.mul (cref "me") (.pow (cref "qp") 4))
+         (.mul (.mul (.mul (clit 8) (csq (cref "eps_0"))) (.pow (cref "h") 3)) (cref "c"))⟩,
+  ⟨"planck_mass", cref "m_pl", .sqrt (.div (.mul (cref "hbar") (cref "c")) (cref "G"))⟩,
+  ⟨"planck_length", cref "l_pl", .sqrt (.div (.mul (cref "hbar") (cref "G")) (.pow (cref "c") 3))⟩,
+  ⟨"planck_time", cref "t_pl", .sqrt (.div (.mul (cref "hbar") (cref "G")) (.pow (cref "c") 5))⟩,
+  ⟨"planck_energy", cref "E_pl", .sqrt (.div (.mul (cref "hbar") (.pow (cref "c") 5)) (cref "G"))⟩,
+  ⟨"planck_temperature", cref "T_pl", .div (.sqrt (.div (.mul (cref "hbar") (.pow (cref "c") 5)) (cref "G"))) (cref "kb")⟩,
+  ⟨"planck_charge", cref "q_pl", .sqrt (.mul (.mul (.mul (.mul (clit 4) .pi) (cref "eps_0")) (cref "hbar")) (cref "c"))⟩,
+  ⟨"electron_charge", cref "qe", .neg (cref "qp")⟩,
   -- the Rydberg *unit* of energy is h·c·R_∞
-  ⟨"unit_Ry", r "unit:Ry", .mul (.mul (r "h") (r "c")) (r "R_inf")⟩
+  ⟨"unit_Ry", cref "unit:Ry", .mul (.mul (cref "h") (cref "c")) (cref "R_inf")⟩
 ]
 
 /-- relations between quantities the source fixes by *independent literals*: they can only hold
@@ -127,12 +127,12 @@ structure NumRelation where
 
 /-- Thomson cross-section σ_T = (8π/3)·r_e², r_e = e²/(4π ε₀ mₑ c²) -/
 def numRelations : List NumRelation := [
-  ⟨"thomson", r "σ_T",
-    .mul (.div (.mul (n 8) .pi) (n 3))
-         (sq (.div (sq (r "qp")) (.mul (.mul (.mul (.mul (n 4) .pi) (r "eps_0")) (r "me")) (sq (r "c"))))),
+  ⟨"thomson", cref "σ_T",
+    .mul (.div (.mul (clit 8) .pi) (clit 3))
+         (csq (.div (csq (cref "qp")) (.mul (.mul (.mul (.mul (clit 4) .pi) (cref "eps_0")) (cref "me")) (csq (cref "c"))))),
     .codata⟩,
   -- the electron-volt is e × 1 V: the unit table and the constants table carry separate literals
-  ⟨"unit_eV", r "unit:eV", r "qp", .codata⟩
+  ⟨"unit_eV", cref "unit:eV", cref "qp", .codata⟩
 ]
 
 /-- rational enclosure of π (Mathlib: `Real.pi_gt_d20`, `Real.pi_lt_d20`) -/
